@@ -20,8 +20,10 @@ import (
 // its rows since it last fired, delivers exactly those aggregates, and restarts.
 //
 // cfg  mode direct|chan|sql        direct: processRow on the caller's goroutine (verif hook), explicit row times
-//                                  chan  : public API (NewGlobalWindow, Start, Add, Callback), barrier = close input
-//                                  sql   : streamsql.Execute / Emit / AddSyncSink, barrier = sentinel row
+//
+//	chan  : public API (NewGlobalWindow, Start, Add, Callback), barrier = close input
+//	sql   : streamsql.Execute / Emit / AddSyncSink, barrier = sentinel row
+//
 // cfg  keys <hex name>*            GROUP BY columns
 // cfg  out <hex alias> <fn> <hex field|*>
 // cfg  pred <prefix AST>           and P P | or P P | cmp <fn> <hex field|*> <gt|ge|lt|le|eq|ne> f:<bits>
